@@ -82,10 +82,38 @@ def ws_replay(ws, query, **kw):
     return d
 
 
+class PlainWs:
+    """a workspace given by its files only (same interface as gen_scope.Workspace for the refs checks)"""
+    def __init__(self, files):
+        self.files = files
+        self.binders = []
+        self.occs = []
+        self.modules = []
+
+
+def record_workspace(rng):
+    """records used across modules: the type is declared in `ma`, `mb` imports it, constructs and returns values,
+    `mc` imports only `mb` (or both) and accesses fields of values it gets from `mb` — a field can be used
+    without importing the module that declares it"""
+    f1, f2 = rng.sample(["p", "q", "size", "name", "item"], 2)
+    two = rng.random() < 0.5
+    ty = f"pub type Rec {{\n  Rec({f1}: Int, {f2}: Int)\n" + (f"  Other({f1}: Int)\n" if two else "") + "}\n"
+    ma = ty + f"pub fn fresh() {{\n  Rec({f1}: 1, {f2}: 2)\n}}\n"
+    mb = (f"import ma\npub fn make() {{\n  ma.Rec({f2}: 2, {f1}: 1)\n}}\n"
+          f"pub fn get(r: ma.Rec) {{\n  r.{f1}\n}}\n"
+          f"pub fn pat(r: ma.Rec) {{\n  case r {{\n    ma.Rec({f1}: a, ..) -> a\n" + ("    ma.Other(..) -> 0\n" if two else "") + "  }\n}\n")
+    imp = "import mb\n" + ("import ma\n" if rng.random() < 0.4 else "")
+    mc = (imp + f"pub fn use_it() {{\n  mb.make().{f1} + mb.get(mb.make())\n}}\n"
+          f"pub fn again() {{\n  let r = mb.make()\n  r.{f1}\n}}\n")
+    return PlainWs([("/w/p/src/ma.gleam", ma), ("/w/p/src/mb.gleam", mb), ("/w/p/src/mc.gleam", mc), ("/w/p/gleam.toml", 'name = "p"\n')])
+
+
 # ---------------- C06 ----------------
 def run_c06(res, tier, seed):
     n_ws = 150 if tier == "quick" else 2500
     wss = [gen_scope.generate(seed * 7919 + i) for i in range(n_ws)]
+    rrng = random.Random(seed + 6)
+    wss += [record_workspace(rrng) for _ in range(12 if tier == "quick" else 100)]
     all_toks = stage1(wss)
     # group tokens by definition
     plans = []
